@@ -250,7 +250,13 @@ func VH_C20(vm *VM, inst int) {
 		base := []c20Item{cl("p", k), cl("p", 'b'), cl("q", 'a'), cl("r", 0)}
 		pos := choice("faultpos", len(base)+1)
 		var fault c20Item
-		switch choice("fault", 7) {
+		switch choice("fault", 10) {
+		case 7:
+			fault = c20Item{kind: 4, text: "foo :- p(a), 1, q(a)."} // a non-callable goal in the middle of a body
+		case 8:
+			fault = c20Item{kind: 4, text: "foo :- 1, p(a)."} // ... first
+		case 9:
+			fault = c20Item{kind: 4, text: "foo :- (p(a), 1), q(a)."} // ... nested on the left
 		case 4:
 			fault = c20Item{kind: 4, text: "'abc"} // unterminated quoted atom: runs to the end of the text
 		case 5:
